@@ -1,15 +1,52 @@
 /-
   Proofs/Plugins — the insertion sort of Model/Plugins is a stable sort (for the ascending direction the
-  source has now).
+  source has now), over the numeric order of the declared `order()` values (`Num.le`: a total preorder).
 -/
 import DeepModel.Model.Plugins
 
 namespace Plugins
 open Extracted.Plugins
 
+/-! ### `Num.le` is the order of the decimals `m / 10^e` -/
+
+theorem pow10_pos (n : Nat) : (0 : Int) < (10 : Int) ^ n := Int.pow_pos (by decide)
+
+theorem Num.le_iff (a b : Num) : a.le b = true ↔ a.m * (10 : Int) ^ b.e ≤ b.m * (10 : Int) ^ a.e := by
+  simp [Num.le]
+
+theorem Num.le_refl (a : Num) : a.le a = true := by simp [Num.le]
+
+theorem Num.le_total (a b : Num) : a.le b = true ∨ b.le a = true := by
+  simp only [Num.le_iff]; exact Int.le_total _ _
+
+theorem Num.le_trans {a b c : Num} (h1 : a.le b = true) (h2 : b.le c = true) : a.le c = true := by
+  rw [Num.le_iff] at *
+  have hP := pow10_pos a.e
+  have hQ := pow10_pos b.e
+  have hR := pow10_pos c.e
+  have h1' := Int.mul_le_mul_of_nonneg_right h1 (Int.le_of_lt hR)
+  have h2' := Int.mul_le_mul_of_nonneg_right h2 (Int.le_of_lt hP)
+  rw [Int.mul_right_comm a.m, Int.mul_right_comm b.m] at h1'
+  rw [Int.mul_right_comm c.m] at h2'
+  exact Int.le_of_mul_le_mul_right (Int.le_trans h1' h2') hQ
+
+/-- on whole numbers it is the order of the integers -/
+theorem Num.le_ofInt (a b : Int) : (Num.ofInt a).le (Num.ofInt b) = decide (a ≤ b) := by
+  simp [Num.le, Num.ofInt]
+
+/-- writing the same number with one more decimal place does not change it: `m / 10^e = 10 m / 10^(e+1)` -/
+theorem Num.eqv_scale (a : Num) : a.eqv ⟨a.m * 10, a.e + 1⟩ = true := by
+  simp only [Num.eqv, Bool.and_eq_true, Num.le_iff, Int.pow_succ]
+  constructor <;> rw [Int.mul_right_comm, Int.mul_assoc] <;> exact Int.le_refl _
+
+theorem Num.eqv_symm {a b : Num} (h : a.eqv b = true) : b.eqv a = true := by
+  simp only [Num.eqv, Bool.and_eq_true] at *; exact ⟨h.2, h.1⟩
+
+/-! ### the sort -/
+
 theorem ascending : sortReverse = false := by decide
 
-theorem before_iff (x y : Spec) : before x y = true ↔ x.key ≤ y.key := by
+theorem before_iff (x y : Spec) : before x y = true ↔ x.key.le y.key = true := by
   simp [before, ascending]
 
 theorem insert_perm (x : Spec) (l : List Spec) : (insert x l).Perm (x :: l) := by
@@ -26,8 +63,8 @@ theorem sort_perm (l : List Spec) : (sort l).Perm l := by
   | nil => exact List.Perm.refl _
   | cons x xs ih => exact (insert_perm x (sort xs)).trans (List.Perm.cons x ih)
 
-theorem insert_sorted (x : Spec) (l : List Spec) (h : l.Pairwise (fun a b => a.key ≤ b.key)) :
-    (insert x l).Pairwise (fun a b => a.key ≤ b.key) := by
+theorem insert_sorted (x : Spec) (l : List Spec) (h : l.Pairwise (fun a b => a.key.le b.key = true)) :
+    (insert x l).Pairwise (fun a b => a.key.le b.key = true) := by
   induction l with
   | nil => simp [insert]
   | cons y ys ih =>
@@ -40,11 +77,13 @@ theorem insert_sorted (x : Spec) (l : List Spec) (h : l.Pairwise (fun a b => a.k
       intro z hz
       rcases List.mem_cons.mp hz with rfl | hz
       · exact hxy
-      · exact Int.le_trans hxy (hy.1 z hz)
+      · exact Num.le_trans hxy (hy.1 z hz)
     · rename_i hb
-      have hyx : y.key ≤ x.key := by
-        have : ¬ x.key ≤ y.key := fun hh => hb ((before_iff x y).mpr hh)
-        omega
+      have hyx : y.key.le x.key = true := by
+        have : ¬ x.key.le y.key = true := fun hh => hb ((before_iff x y).mpr hh)
+        rcases Num.le_total x.key y.key with h' | h'
+        · exact absurd h' this
+        · exact h'
       refine List.pairwise_cons.mpr ⟨?_, ih hy.2⟩
       intro z hz
       have := (insert_perm x ys).mem_iff.mp hz
@@ -52,15 +91,15 @@ theorem insert_sorted (x : Spec) (l : List Spec) (h : l.Pairwise (fun a b => a.k
       · exact hyx
       · exact hy.1 z hz'
 
-theorem sort_sorted (l : List Spec) : (sort l).Pairwise (fun a b => a.key ≤ b.key) := by
+theorem sort_sorted (l : List Spec) : (sort l).Pairwise (fun a b => a.key.le b.key = true) := by
   induction l with
   | nil => simp [sort]
   | cons x xs ih => exact insert_sorted x _ ih
 
-/-- inserting `x` in front of the first element it may stay in front of: among the elements with key `k`, `x`
-    comes first (everything it jumped over has a strictly smaller key) -/
-theorem insert_filter (x : Spec) (k : Int) (l : List Spec) :
-    (insert x l).filter (fun s => s.key == k) = (x :: l).filter (fun s => s.key == k) := by
+/-- inserting `x` in front of the first element it may stay in front of: among the elements whose key equals the
+    number `k`, `x` comes first (everything it jumped over has a strictly smaller key) -/
+theorem insert_filter (x : Spec) (k : Num) (l : List Spec) :
+    (insert x l).filter (fun s => s.key.eqv k) = (x :: l).filter (fun s => s.key.eqv k) := by
   induction l with
   | nil => simp [insert]
   | cons y ys ih =>
@@ -68,19 +107,20 @@ theorem insert_filter (x : Spec) (k : Int) (l : List Spec) :
     split
     · rfl
     · rename_i hb
-      have hlt : y.key < x.key := by
-        have : ¬ x.key ≤ y.key := fun hh => hb ((before_iff x y).mpr hh)
-        omega
+      have hnot : ¬ x.key.le y.key = true := fun hh => hb ((before_iff x y).mpr hh)
       simp only [List.filter_cons] at ih ⊢
       rw [ih]
-      by_cases hx : x.key = k <;> by_cases hy : y.key = k
-      · omega
+      by_cases hx : x.key.eqv k = true <;> by_cases hy : y.key.eqv k = true
+      · -- both equal k: then x ≤ y, which was excluded
+        exfalso
+        simp only [Num.eqv, Bool.and_eq_true] at hx hy
+        exact hnot (Num.le_trans hx.1 hy.2)
       · simp [hx, hy]
       · simp [hx, hy]
       · simp [hx, hy]
 
-theorem sort_stable (k : Int) (l : List Spec) :
-    (sort l).filter (fun s => s.key == k) = l.filter (fun s => s.key == k) := by
+theorem sort_stable (k : Num) (l : List Spec) :
+    (sort l).filter (fun s => s.key.eqv k) = l.filter (fun s => s.key.eqv k) := by
   induction l with
   | nil => rfl
   | cons x xs ih =>
